@@ -331,9 +331,13 @@ def _extract_attributes(element):
     attributes = []
     for subel in element:
         sqname = etree.QName(subel)
-        _t = xml_qname_to_QualifiedName(
-            subel, "%s:%s" % (subel.prefix, sqname.localname)
-        )
+        if subel.prefix is None:
+            # the element is in the default namespace
+            _t = xml_qname_to_QualifiedName(subel, sqname.localname)
+        else:
+            _t = xml_qname_to_QualifiedName(
+                subel, "%s:%s" % (subel.prefix, sqname.localname)
+            )
 
         for key, value in subel.attrib.items():
             if key == _ns_xsi("type"):
